@@ -157,9 +157,10 @@ macro_rules! wr_harness {
 // Contract R1-R4 checked after one call; `p` concrete per harness, everything else symbolic.
 fn check_search_contract(k: u64, b: u8, p: usize, chunk: &Chunk, e: Entry, i: usize, base: bool) {
 	let hit = !e.is_empty();
+	// universally quantified slot j in [p, 64) (a guard, not an assumption: p == 64 leaves no such slot)
 	let j: usize = kani::any();
-	kani::assume(j >= p && j < 64);
-	let wj = word(chunk, j);
+	let j_in_range = j >= p && j < 64;
+	let wj = if j_in_range { word(chunk, j) } else { 0 };
 	if hit {
 		assert!(i >= p && i < 64, "U2.R1.hit_position_in_range");
 		assert!(e.as_u64() == word(chunk, i), "U2.R1.hit_is_the_slot_content");
@@ -167,7 +168,7 @@ fn check_search_contract(k: u64, b: u8, p: usize, chunk: &Chunk, e: Entry, i: us
 		if base {
 			assert!(spec_exact(e.as_u64(), k, b), "U2.R1.base_hit_is_exact");
 		}
-		if j < i {
+		if j_in_range && j < i {
 			assert!(!spec_exact(wj, k, b), "U2.R2.no_exact_match_skipped_before_hit");
 			if !base && spec_fast_pat(k, b) != 0 {
 				assert!(!spec_fast(wj, k, b), "U2.R3.hit_is_first_fast_match");
@@ -175,9 +176,11 @@ fn check_search_contract(k: u64, b: u8, p: usize, chunk: &Chunk, e: Entry, i: us
 		}
 	} else {
 		assert!(i == 0 && e.as_u64() == 0, "U2.R4.miss_is_empty_zero");
-		assert!(!spec_exact(wj, k, b), "U2.R2.miss_means_no_exact_match");
-		if !base && spec_fast_pat(k, b) != 0 {
-			assert!(!spec_fast(wj, k, b), "U2.R3.miss_means_no_fast_match");
+		if j_in_range {
+			assert!(!spec_exact(wj, k, b), "U2.R2.miss_means_no_exact_match");
+			if !base && spec_fast_pat(k, b) != 0 {
+				assert!(!spec_fast(wj, k, b), "U2.R3.miss_means_no_fast_match");
+			}
 		}
 	}
 }
